@@ -6,9 +6,15 @@ def make_replay(path, prop, o, why, here, repo, env, scratch):
            "engine": o.get("engine", ""), "solver_output": o.get("model", ""),
            "candidate_model_from_instantiation": o.get("weak", False), "confirmed_on_real_code": False}
     confirmed = False
+    if o.get("bounded") and o.get("status") != "discharged" and "BOUNDED-MISMATCH" in (o.get("raw", "") or ""):
+        # a bounded stand-in runs the real code: each mismatch line is a concrete failing input
+        rec["failing_inputs"] = [l for l in o["raw"].splitlines() if "BOUNDED-MISMATCH" in l][:20]
+        rec["replay_verdict"] = "the bounded run executed the real code on these inputs and observed the mismatch"
+        rec["rerun"] = o.get("rerun", "")
+        confirmed = True
     try:
         import replay_go
-        confirmed = replay_go.try_replay(rec, o, here, repo, env, scratch)
+        confirmed = confirmed or replay_go.try_replay(rec, o, here, repo, env, scratch)
     except Exception as e:  # replay is best effort; the obligation failure stands on its own
         rec["replay_error"] = repr(e)
     rec["confirmed_on_real_code"] = bool(confirmed)
